@@ -48,7 +48,8 @@ def _compare(name, kw, full, pref, k, exempt):
 
 
 def _stem_job(args):
-    names, quick = args
+    names, quick = args[:2]
+    kmin = args[2] if len(args) > 2 else 20
     fs = dict(indreg.functions())
     st = indreg.stems(300)
     st2 = indreg.stems(300, base=50.0)
@@ -82,6 +83,7 @@ def _stem_job(args):
                     break
                 ok_any = True
                 ks = list(range(20, 300)) if not quick else sorted(set(range(21, 300, 9)) | {239, 240, 241, 299})
+                ks = [k for k in ks if k >= kmin]
                 ex = _exempt_tail(name, kw)
                 for k in ks:
                     out['n'] += 1
@@ -169,10 +171,17 @@ def run(ctx):
     covered = set()
     uncovered = []
     crashed = []
-    for j, (st, r) in zip(jobs, core.pmap_isolated(_stem_job, jobs)):
+    first = core.pmap_isolated(_stem_job, jobs)
+    # an indicator whose kernel crashes natively on short prefixes is retried with longer minimum prefixes
+    retry = [(j[0], j[1], 70) for j, (st, r) in zip(jobs, first) if st != 'ok']
+    second = dict(zip([j[0][0] for j in retry], core.pmap_isolated(_stem_job, retry)))
+    for j, (st, r) in zip(jobs, first):
         if st != 'ok':
-            crashed.append('%s: %s (stems)' % (j[0][0], r))
-            continue
+            crashed.append('%s: %s on prefixes of 20..69 candles (stems); retried with prefixes >= 70' % (j[0][0], r))
+            st, r = second[j[0][0]]
+            if st != 'ok':
+                crashed.append('%s: %s also with prefixes >= 70' % (j[0][0], r))
+                continue
         cov['transitions'] += r['n']
         ctx.count('prefix-comparisons(stems)', r['n'])
         ctx.count('raised-on-short-input', r['raised_short'])
